@@ -307,6 +307,7 @@ impl MzMLReader {
                                 let mut buf: [u8; 8] = [0; 8];
                                 bytes
                                     .chunks(8)
+                                    .filter(|chunk| chunk.len() == 8)
                                     .map(|chunk| {
                                         buf.copy_from_slice(chunk);
                                         f64::from_le_bytes(buf) as f32
